@@ -119,7 +119,7 @@ def run(ctx):
         cases.append(("corpus:" + os.path.relpath(f, REPO), open(f, "rb").read(), {}))
     plan = [("plain", ctx.budget(60, 1200)), ("plain-nocomment", ctx.budget(20, 400)), ("shuffled-plain", ctx.budget(40, 900)),
             ("ws-adversarial", ctx.budget(80, 1800)), ("adversarial", ctx.budget(110, 3600)),
-            ("plain-blockcomments", ctx.budget(70, 2000)), ("plain-onecomment", ctx.budget(50, 1500))]
+            ("plain-blockcomments", ctx.budget(60, 2000)), ("plain-onecomment", ctx.budget(40, 1500))]
     for strat, n in plan:
         for _ in range(n):
             if strat == "ws-adversarial":
